@@ -149,7 +149,7 @@ class HarnessBuild:
                 if ('@' + mname) not in body and ('@"' + mname + '"') not in body:
                     overrides.remove(mname)   # not used by this harness
             open(raw, 'w').write(body)
-        rc, out, w, _, to = run(['opt-14'] + OPT_FLAGS + [raw, '-o', ll], timeout=600)
+        rc, out, w, _, to = run(['opt-14'] + h.get('opt_flags', OPT_FLAGS) + [raw, '-o', ll], timeout=600)
         if rc != 0: raise Inconclusive('opt failed for %s:\n%s' % (self.hname, out[-3000:]))
         self.ir_lines = sum(1 for _ in open(ll))
         cmd = ['python3', os.path.join(VERIF, 'tools', 'ir2c.py'), ll, '-o', c, '--list-external', os.path.join(d, 'ext.txt'),
